@@ -306,3 +306,12 @@ Definition agree_evm (c : cfg) (env : option (list (string * string))) (reported
 Definition agree_ctxs_life (c : cfg) (env : option (list (string * string))) (ls : list life) (o : uopts)
            (install upgrade : ictx) : bool :=
   ctx_eqb (install_ctx c env) install && ctx_eqb (upgrade_ctx (after_life c ls) o) upgrade.
+
+(* ---------------------------------------------------------------- ServiceManager::upgrade *)
+(* between build_upgrade_install_context and ServiceControl::install the context is not touched, whatever
+   `force` and `start_service` are *)
+Definition upgrade_installed_ctx (r : cfg) (o : uopts) (force start_service : bool) : ictx := upgrade_ctx r o.
+
+Definition agree_ctxs_upgrade (c : cfg) (env : option (list (string * string))) (ls : list life) (o : uopts)
+           (force start_service : bool) (install upgrade : ictx) : bool :=
+  ctx_eqb (install_ctx c env) install && ctx_eqb (upgrade_installed_ctx (after_life c ls) o force start_service) upgrade.
